@@ -8,7 +8,7 @@ import (
 )
 
 // FaultKinds lists the asset faults the generator can inject between sprints.
-var FaultKinds = []string{"delete_flow", "delete_parent_flow", "delete_node", "strip_router", "strip_wait", "strip_timeout", "change_type", "rewire_exits", "none"}
+var FaultKinds = []string{"delete_flow", "delete_parent_flow", "delete_node", "strip_router", "strip_wait", "strip_timeout", "change_type", "rewire_exits", "none", "delete_parent_node", "strip_parent_router"}
 
 // ApplyFault rewrites the asset document relative to where the session is waiting.
 func ApplyFault(doc json.RawMessage, session flows.Session, f *Fault) (json.RawMessage, error) {
@@ -83,6 +83,37 @@ func ApplyFault(doc json.RawMessage, session flows.Session, f *Fault) (json.RawM
 				kept = append(kept, nm)
 			}
 			fm["nodes"] = kept
+		}
+	case "delete_parent_node", "strip_parent_router":
+		// the node the parent run is paused on (its enter_flow node) vanishes or loses its router; the waiting run is intact
+		if p := waiting.ParentInSession(); p != nil && len(p.Path()) > 0 {
+			pNode := string(p.Path()[len(p.Path())-1].NodeUUID())
+			if _, pfm := findFlow(string(p.FlowReference().UUID)); pfm != nil {
+				pnodes, _ := pfm["nodes"].([]any)
+				kept := []any{}
+				for _, n := range pnodes {
+					nm := n.(map[string]any)
+					if nm["uuid"] == pNode {
+						if f.Kind == "strip_parent_router" {
+							delete(nm, "router")
+							if exits, ok := nm["exits"].([]any); ok && len(exits) > 1 {
+								nm["exits"] = exits[:1]
+							}
+							kept = append(kept, nm)
+						}
+						continue
+					}
+					if exits, ok := nm["exits"].([]any); ok && f.Kind == "delete_parent_node" {
+						for _, e := range exits {
+							if em, ok := e.(map[string]any); ok && em["destination_uuid"] == pNode {
+								delete(em, "destination_uuid")
+							}
+						}
+					}
+					kept = append(kept, nm)
+				}
+				pfm["nodes"] = kept
+			}
 		}
 	case "strip_router":
 		if node != nil {
